@@ -112,11 +112,22 @@ impl Revision {
     #[allow(dead_code)]
     pub fn from(s: &str) -> Result<Revision> {
         match FULL_REV.captures(s) {
-            Some(r) => Ok(Revision {
-                index: r.name("index").unwrap().as_str().parse::<u32>()?,
-                digest: r.name("digest").unwrap().as_str().to_string(),
-                tail: Some(r.name("tail").unwrap().as_str().to_string()),
-            }),
+            Some(r) => {
+                let index = r.name("index").unwrap().as_str().parse::<u32>()?;
+                // Only revisions with a parent (index > 1) have a tail, and only those are printed
+                // with one: a tail on a first revision is ignored (otherwise the revision would
+                // print like the plain first revision without being equal to it)
+                let tail = if index > 1 {
+                    Some(r.name("tail").unwrap().as_str().to_string())
+                } else {
+                    None
+                };
+                Ok(Revision {
+                    index,
+                    digest: r.name("digest").unwrap().as_str().to_string(),
+                    tail,
+                })
+            }
             None => match FIRST_REV.captures(s) {
                 Some(r) => Ok(Revision {
                     index: r.name("index").unwrap().as_str().parse::<u32>()?,
